@@ -137,6 +137,12 @@ fn val_spelling(v: &str) -> Vec<u8> {
         "u3_esc" => "\\u20ac",
         "u4_lit" => "\u{1f600}",
         "u4_sur" => "\\ud83d\\ude00",
+        "p2_lit" => "\u{20bb7}",
+        "p14_lit" => "\u{e0067}",
+        "p16_lit" => "\u{10ffff}",
+        "p2_sur" => "\\ud842\\udfb7",
+        "p14_sur" => "\\udb40\\uDC67",
+        "p16_sur" => "\\uDBFF\\udfff",
         "del_lit" => "\u{7f}",
         "brackets" => "]}[{,:",
         "uplain" => "\\u0061bc",
@@ -166,6 +172,9 @@ fn char_bytes(c: &str) -> Vec<u8> {
         "u2_lit" => "\u{e9}",
         "u3_lit" => "\u{20ac}",
         "u4_lit" => "\u{1f600}",
+        "p2_lit" => "\u{20bb7}",
+        "p14_lit" => "\u{e0067}",
+        "p16_lit" => "\u{10ffff}",
         "del_lit" => "\u{7f}",
         "brackets" => "]}[{,:",
         _ => {
@@ -758,7 +767,7 @@ fn judge_json(ctx: &mut Ctx, bytes: &[u8], expect: &str, den: Option<&Exp>, sort
             tool_error(&format!("the specification's denotation and serde_json disagree on {}\n spec: {:?}\n serde: {:?}", shown(), d, want));
         }
     }
-    if (expect == "accept") != oor.is_empty() {
+    if (expect == "accept" || expect == "may_exact") != oor.is_empty() {
         tool_error(&format!("expectation {} but serde_json finds out-of-range members {:?} in {}", expect, oor, shown()));
     }
     let mut fails = vec![];
@@ -942,7 +951,7 @@ fn run(args: &[String]) {
             *by_expect.entry(expect.to_string()).or_insert(0) += 1;
             let (verdict, hexdoc, hexsorted, text);
             if fam == "hand" {
-                if expect != "accept" {
+                if expect != "accept" && expect != "may_exact" {
                     continue;
                 }
                 let want = exp_from_den(&c["den"]);
